@@ -104,7 +104,7 @@ def search(ctx):
     # names: every key, with whitespace / case variants; by name == by number
     keys = list(sg.sgdic.keys())
     for k in keys:
-        variants = [k, k.upper(), ' ' + ' '.join(k) + '\t', k.capitalize()]
+        variants = [k, k.upper(), ' ' + ' '.join(k) + '\t', k.capitalize(), '\n'.join(k), k[:1] + ' \n' + k[1:-1] + '\r\n' + k[-1:] + '\n', '\t' + k + '\x0b\x0c']      # every kind of white space re's \\s matches
         for v in variants:
             try:
                 a = sg.sg(sgname=v)
